@@ -159,6 +159,6 @@ Section Complete.
           exists resF. split; [|exact Hroot].
           cbn [cpn]. rewrite HX2. fold (fv res cache (px k)). rewrite Hfv.
           rewrite Enl. rewrite Ers.
-          rewrite px_parent by exact Hk1. cbn [ins_idx]. exact Hrun.
+          rewrite px_parent by exact Hk1. cbv zeta. rewrite HresY. cbn [ins_idx]. exact Hrun.
   Qed.
 End Complete.
